@@ -14,6 +14,23 @@ CLAIMED = {
              "portable pattern subset. Bounded universes: see DESIGN.md section 6 (C01).",
         technique="TLA+ spec (Eval/EvalCode) model-checked with TLC; TLC-generated behaviours replayed on the real code",
         design="6/C01"),
+    "C02": dict(
+        text="Same machinery as C01 under draft-07: TLC checks EvalCode (code-shaped, with the draft-07 $ref short-circuit, "
+             "items-array/additionalItems, dependencies, $id-as-anchor) against Eval (written from draft-07) on bounded universes, "
+             "including the $schema configuration switch (absent / 2020-12 / two draft-07 spellings / unsupported values => refused) "
+             "and draft-07 roots that load remote documents with and without their own $schema from the root and from subschemas; "
+             "every behaviour is replayed on the real code.",
+        note="Trusted: as C01. Mixed-draft universes and 2020-only keywords inside draft-07 documents are outside the quantifier.",
+        technique="TLA+ spec (Eval/EvalCode/Resolve) model-checked with TLC; TLC-generated behaviours replayed on the real code",
+        design="6/C02"),
+    "C07": dict(
+        text="TLC checks that the code's compressed annotation record (allItems/endIndex/evaluatedIndexes/allProperties/"
+             "evaluatedProperties, merged into the caller only on success) denotes exactly the specification's annotation sets and "
+             "yields the same verdict, over universes that combine unevaluatedProperties/unevaluatedItems with every in-place "
+             "applicator, failing-then-passing branches, not, nested unevaluated*, $ref; every behaviour is replayed on the real code.",
+        note="Trusted: as C01.",
+        technique="TLA+ spec (Eval annotations vs EvalCode compressed annotations) model-checked with TLC; behaviours replayed on the real code",
+        design="6/C07"),
 }
 
 NOT_YET = "check not built yet in this round (work in progress; see DESIGN.md section 11)"
@@ -54,7 +71,7 @@ def main():
     json.dump(m, open(os.path.join(VERIF, "MANIFEST.json"), "w"), indent=1)
     print("MANIFEST: %d checks, %d not_applicable" % (len(checks), len(na)))
 
-HOOK_COMMITS = []
+HOOK_COMMITS = ["5d44ef1"]
 
 if __name__ == "__main__":
     main()
